@@ -24,4 +24,4 @@ echo "$out" | grep -E "^VIOLATION|^INCONCLUSIVE|^  " | head -6 | cut -c1-400
 echo "$out" | tail -1
 ex=$(echo "$out" | tail -1 | sed -n 's/.*-> exit \([0-9]*\).*/\1/p')
 echo "[$NAME] check_${PID}_${TIER}_exit=${ex:-?}"
-mkdir -p $DEST && cp $SRC/demo.py $SRC/meta.json $DEST/ && git -C $WT diff > $DEST/patch.diff
+mkdir -p $DEST && for f in $SRC/*; do case $(basename $f) in patch*|__pycache__) ;; *) [ "$f" -ef "$DEST/$(basename $f)" ] || cp -r $f $DEST/ ;; esac; done; git -C $WT diff > $DEST/patch.diff
